@@ -153,10 +153,16 @@ class Interp {
     for (const auto &arr : p.getCoefficients())
       for (const auto &c : arr) s.vals.push_back(c);
     if (p.getSupport().containsIntervals()) {
+      // evaluations are observable state too. Every probe is taken from a FRESH COPY of the object, so that the
+      // probing itself cannot perturb the object and the value reflects whatever hidden state the object carried
+      // when the snapshot was taken (e.g. a search hint updated by an earlier const evaluation).
       const auto &sup = p.getSupport();
-      s.vals.push_back(p(sup.front()));
-      s.vals.push_back(p(sup.back()));
-      s.vals.push_back(p((sup[0] + sup[1]) / mk(2)));
+      const size_t np = sup.size();
+      for (size_t k = 0; k < np && k < 6; k++) {
+        { Spline<T, o> cp(p); s.vals.push_back(cp(sup[k])); }
+        if (k + 1 < np && k < 2) { Spline<T, o> cp(p); s.vals.push_back(cp((sup[k] + sup[k + 1]) / mk(2))); }
+      }
+      { Spline<T, o> cp(p); s.vals.push_back(cp(sup.back())); }
     }
     return s;
   }
@@ -610,6 +616,7 @@ class Interp {
     touch(kind, a);
     T c = mk(((unsigned)op.d % 9) + 1, 1 + (unsigned)op.b % 3);
     if (op.d & 16) c = mk(-3, 2);
+    const bool zero_scalar = ((unsigned)op.d % 64) == 63;  // multiplication by zero is a valid call (division never gets it)
     switch (op.code) {
       case P_COPY: {
         Spline<T, o> cp(v[a]);
@@ -657,15 +664,23 @@ class Interp {
         }
         break;
       }
-      case P_SCALE: store_spline((op.d & 32) ? c * v[a] : v[a] * c, fam(kind, a)); break;
+      case P_SCALE: { T cc = zero_scalar ? mk(0) : c; store_spline((op.d & 32) ? cc * v[a] : v[a] * cc, fam(kind, a)); break; }
       case P_DIV: store_spline(v[a] / c, fam(kind, a)); break;
       case P_NEG: store_spline(-v[a], fam(kind, a)); break;
-      case P_ISCALE: target(kind, a); inplace_mark(kind, a); v[a] *= c; break;
+      case P_ISCALE: target(kind, a); inplace_mark(kind, a); v[a] *= (zero_scalar ? mk(0) : c); break;
       case P_IDIV: target(kind, a); inplace_mark(kind, a); v[a] /= c; break;
       case P_EVAL: {
         const auto &p = v[a];
         T x = mk(op.b % 40 - 20, 1 + (unsigned)op.d % 4);
-        valid_call("evaluation", [&] { (void)p(x); if (p.getSupport().containsIntervals()) { (void)p(p.front()); (void)p(p.back()); } });
+        valid_call("evaluation", [&] {
+          (void)p(x);
+          if (p.getSupport().containsIntervals()) {
+            const auto &sup = p.getSupport();
+            if (op.d & 8) { (void)p(p.front()); (void)p(p.back()); }
+            size_t k = (unsigned)op.b % sup.numberOfIntervals();  // last evaluation: strictly inside interval k
+            (void)p((sup[k] + sup[k + 1]) / mk(2));
+          }
+        });
         break;
       }
       case P_FRONTBACK: {
